@@ -78,7 +78,13 @@ fn shuffle<T>(v: &mut [T], seed: &mut u64) {
 pub fn mutf8(s: &str) -> Vec<u8> {
 	let mut out = Vec::with_capacity(s.len());
 	for ch in s.chars() {
-		let c = ch as u32;
+		// U+E000 / U+E001 stand for the unpaired surrogates U+D800 / U+DFFF (see mapmodel::conv::js): legal in a class file,
+		// impossible in a Rust string
+		let c = match ch {
+			'\u{E000}' => 0xD800,
+			'\u{E001}' => 0xDFFF,
+			ch => ch as u32,
+		};
 		if c != 0 && c < 0x80 {
 			out.push(c as u8);
 		} else if c < 0x800 {
